@@ -76,7 +76,7 @@ Definition below_root (r : g_root) (p : str) : Prop :=
                   Forall (fun c => c <> dotdot) (split_seps (s ++ p))
   | RServerUrl =>
       forall base_path, exists r, g_request_path base_path p = Some r /\ is_prefix (base_dir base_path) r = true
-  | RUnknown _ => False
+  | RUnknown => False
   end.
 
 Lemma good_string_below : forall r p, known_root r = true -> safe_rel p -> bytes p -> p <> [] -> below_root r p.
@@ -133,6 +133,9 @@ Definition site_key (x : string * string * string) : string * string := (fst (fs
 Lemma flow_sites_are_the_join_sites :
   map (fun s => (s_file s, s_text s)) g_consumer_joins
   = map (fun x => site_key (fst x)) (filter is_consumer_site modelled_join_sites).
+Proof. vm_compute. reflexivity. Qed.
+
+Lemma flow_table_is_the_site_list : g_flow_table = map flow_row g_consumer_joins.
 Proof. vm_compute. reflexivity. Qed.
 
 (* the flow really reaches a join: a concrete module, both suppliers' sites *)
